@@ -714,7 +714,8 @@ def stabilizer_projection_trace(gs_stb, ps_stb, gs_obs, ps_obs, r):
         update = torch.zeros(Ng, dtype=torch.bool, device=device)
         acqs = acq(gs_stb, gs_obs[k]).to(torch.bool)
         p = torch.logical_and(acqs, indices<N+r).nonzero()
-        if p.shape[0] > 0:
+        found = p.shape[0] > 0 # a pivot exists (it may be the last row, with nothing after it to update)
+        if found:
             p = p[0].item()
             update[p+1::] = True
             p2 = torch.logical_and(acqs, update).nonzero().flatten()
@@ -730,7 +731,7 @@ def stabilizer_projection_trace(gs_stb, ps_stb, gs_obs, ps_obs, r):
         for j in temp_acqs[0:N].nonzero().flatten():
             pa = (pa + ps_stb[j] + ipow(ga, gs_stb[j])) % 4
             ga = (ga + gs_stb[j]) % 2
-        if torch.any(update):
+        if found:
             q = (p+N)%(2*N)
             gs_stb[q] = gs_stb[p]
             gs_stb[p] = gs_obs[k]
